@@ -286,6 +286,10 @@ func (u *Unit) execUnOp(fr *Frame, st *State, x *ssa.UnOp, where string) {
 		switch p := v.(type) {
 		case *PtrV:
 			if p.Cell != nil && strings.HasPrefix(p.Cell.Name, "G:") {
+				if cs, ok := u.eng.constTables[p.Cell.Name[2:]]; ok && len(p.Path) == 0 {
+					fr.vals[x] = u.constTable(st, p.Cell.Name[2:], cs, x.Type())
+					return
+				}
 				fr.vals[x] = u.loadGlobal(st, p, x.Type())
 				return
 			}
@@ -471,6 +475,10 @@ func (u *Unit) overflow(st *State, r Term, t types.Type, where string) {
 		return
 	}
 	fc := u.eng.cs.Funcs[u.curKey()]
+	if fc == nil {
+		// a helper without a contract, inlined: the flags and tags of the function it is inlined into apply
+		fc = u.fc
+	}
 	// checked arithmetic is the default; a function opts out with `flag no_arith` (listed in the evidence)
 	if fc != nil && fc.Flags["no_arith"] {
 		return
